@@ -315,17 +315,34 @@ func runC06(c *Ctx) {
 		"{a: l.top(2), b: l.skip(1).map(e -> e * 2)}", "{x: {y: [l.map(e -> e + 1)]}}", "[1, l.map(e -> e + 1), l.accept(e -> e > 2)]", "{n: 0, m: l.map(e -> if e = 3 then throw(\"x\") else e)}",
 		"{m: l.map(e -> if e = 3 then throw(\"x\") else e), n: 0}", "{m: l.map(e -> if e = 3 then throw(\"x\") else e), k: l.map(e -> e + 1)}", "[l.top(1), [l.iir(e -> e, (e, p) -> e + p)], {z: l.number((n, e) -> n * e)}]",
 		"l.first()", "{p: 1, q: 2, r: l.reverse(), s: l.map(e -> 0 - e)}", "l.map(e -> [e, l.size()])", "{e: [], f: l.size()}", "[[], l.top(2)]", "l.map(e -> @C(e))"}
+	// the copy a consumer gets can be traversed ONCE; a consumer may hand it to the closure of a stage that has gone parallel,
+	// where several workers ask for it at the same moment: the first one materialises it (under the list's lock), the others wait
+	// and read the items (round-5 seed C06-13: Eval ran the producer without the lock, the second worker got the used-up
+	// iterator). The list is not touched before the stage has switched (element 14), and its source is slow, so that the first
+	// materialisation is still under way when the other workers arrive.
+	type multiSpecial struct{ src, f1, f2, f3 string }
+	specials := []multiSpecial{
+		{"numbers(30).map(e -> @C(e))", "numbers(40).map(i -> @C(i) + (if i < 14 then 0 else l.size())).sum()", "l.sum()", "l.size()"},
+		{"numbers(30).map(e -> @C(e))", "l.size()", "numbers(40).map(i -> @C(i) + (if i < 14 then 0 else l[i % 30])).sum()", "l.sum()"},
+		{"numbers(20).accept(e -> @C(e) >= 0)", "l.sum()", "l.size()", "numbers(40).accept(i -> @C(i) >= 0 & (i < 14 | l.size() = 20)).size()"},
+		{"numbers(30).map(e -> @C(e))", "numbers(40).map(i -> @C(i) + (if i < 14 then 0 else l.order(e -> 0 - e).first())).sum()", "l.top(3)", "l.size()"},
+		{"numbers(25).iir(e -> @C(e), (e, p) -> @C(e) + p)", "numbers(48).map(i -> @C(i) + (if i < 14 then 0 else l.last())).sum()", "l.sum()", "l.map(e -> e + 1)"},
+	}
 	nMulti := c.Pick(60, 600)
-	for i := 0; i < nMulti; i++ {
+	for i := -2 * len(specials); i < nMulti; i++ {
 		pick := func() string { return shapes[c.rng.Intn(len(shapes))] }
 		f1, f2, f3 := pick(), pick(), pick()
-		if i < len(shapes) {
+		if i >= 0 && i < len(shapes) {
 			f1 = shapes[i]
 		}
 		srcList := []string{"numbers(6)", "numbers(40).map(e -> e + 1)", "[5, 3, 1]", "numbers(30).accept(e -> e % 3 != 0)", "numbers(5).map(e -> e * 2).eval()"}[c.rng.Intn(5)]
+		if i < 0 {
+			sp := specials[(-i-1)%len(specials)]
+			srcList, f1, f2, f3 = sp.src, sp.f1, sp.f2, sp.f3
+		}
 		multi := fmt.Sprintf("let r = %s.multiUse({a: l -> %s, b: l -> %s, c: l -> %s}); [r.a.string(), r.b.string(), r.c.string()].string()", srcList, f1, f2, f3)
 		direct := fmt.Sprintf("let l = %s; [(%s).string(), (%s).string(), (%s).string()].string()", srcList, f1, f2, f3)
-		id := len(corpus) + n + nForced + i
+		id := len(corpus) + n + nForced + i + 2*len(specials)
 		pc := &pipeCase{profile: "multiUse-vs-direct", gmp: []int{16, 4, 2}[c.rng.Intn(3)], par: true, sides: 1}
 		pc.fast = &workerCase{id: fmt.Sprintf("f%d", id), a: 0, flags: "opt", src: strings.ReplaceAll(direct, "@C", "quick")}
 		pc.prof = &workerCase{id: fmt.Sprintf("p%d", id), a: 0, flags: "opt", src: strings.ReplaceAll(multi, "@C", "slow")}
